@@ -81,7 +81,7 @@ class World:
             fid = f"f{i}"
             params = [f"p{j}" for j in range(npar)]
             plist = ", ".join(params + (["..r"] if rest else []))
-            body = f"print(this.tag); print([{', '.join(params)}]);" + (" print(r);" if rest else "")
+            body = (f"print(this.tag); " if rng.random() < 0.6 else 'print($"${this.tag}"); ') + f"print([{', '.join(params)}]);" + (" print(r);" if rest else "")
             if rng.random() < 0.5:
                 sc.stmt(f"fn {fid}({plist}) {{ {body} }}")
             else:
